@@ -315,6 +315,14 @@ def quiet_call(f, *a, **k):
                 return None, e
 
 
+class CheckBudgetExceeded(BaseException):
+    """the whole run exceeded its wall-clock budget (check.py: exit 2) - a BaseException so that no `except Exception` of an oracle
+    mistakes it for a behaviour of the code under test"""
+
+
+GLOBAL_DEADLINE = [None]          # absolute time.time() of the run's global watchdog, set by check.py
+
+
 class HarnessTimeout(Exception):
     """a library call did not return within the watchdog time (a non-terminating loop is a finding, not a hang)"""
 
@@ -336,8 +344,15 @@ def quiet_call_timeout(seconds, f, *a, **k):
     finally:
         signal.alarm(0)
         signal.signal(signal.SIGALRM, old)
-        if outer:
-            signal.alarm(max(1, int(outer - (time.time() - t0))))
+        if GLOBAL_DEADLINE[0] is not None:
+            # re-arm the run's global watchdog from its ABSOLUTE deadline (alarm() works in whole seconds: re-arming with "what was left"
+            # loses up to a second per call and would eat - or, rounded to 0, silently drop - the budget after a few thousand calls)
+            left = GLOBAL_DEADLINE[0] - time.time()
+            if left <= 0:
+                raise CheckBudgetExceeded("global budget exhausted")
+            signal.alarm(max(1, int(left + 0.999)))
+        elif outer:
+            signal.alarm(max(1, int(outer - (time.time() - t0) + 0.999)))
 
 
 def obs_vectors(desc, obs):
